@@ -64,7 +64,7 @@ def run_config(cfg):
     r = random.Random(cfg["data_seed"])
     depth = cfg["depth"]
     n = depth
-    n_deep = cfg.get("deep_len", 0)
+    n_deep = max(cfg.get("deep_len", 0), cfg.get("wide_len", 0))
     opp = cfg["opp"]
     outliers_on = opp > 0
     data = bridge.make_data(r, max(n, n_deep), samples=cfg["samples"], grid=cfg["grid"], style=cfg["style"],
@@ -208,7 +208,7 @@ def run_config(cfg):
                     if rest:
                         visit(particle, t, cf, rest, s_, path + [models.canon_str(cn)])
 
-    def deep_path(rr, length):
+    def deep_path(rr, length, wide=False):
         """One seeded genealogy of `length` placements, biased towards many top-level clones and several outliers, with all
         per-pair checks at every step (reaches parent states the systematic closure is too shallow for)."""
         pp, pt, pf, s_, path = None, None, None, 0.0, []
@@ -223,7 +223,7 @@ def run_config(cfg):
             flat = [c for c in cns if len(c[0]) == (len(pf.own) if pf else 0) + 1 and all(
                 (own == cl) for own, cl in c[0] if dp in own)]  # new top-level clone without children
             outl = [c for c in cns if dp in c[1]]
-            if u < 0.45 and flat:
+            if (u < 0.45 or (wide and u < 0.97)) and flat:
                 cn = flat[0]
             elif u < 0.6 and outl:
                 cn = outl[0]
@@ -237,7 +237,10 @@ def run_config(cfg):
     visit(None, None, None, list(range(n)), 0.0, [])
     rr = random.Random(cfg["data_seed"] ^ 0x77)
     for _ in range(cfg.get("deep_paths", 0)):
-        deep_path(rr, n_deep)
+        deep_path(rr, cfg.get("deep_len", 0))
+    if cfg.get("wide_len", 0):
+        # one genealogy that keeps opening top-level clones: parents with 9, 10, ... top-level clones (2^9+ new-clone placements)
+        deep_path(rr, cfg["wide_len"], wide=True)
 
     # the standard sampler's swarm, no resampling: weights must equal target / prod q up to the common constant
     for rep_i in range(cfg["swarm_runs"]):
@@ -296,7 +299,8 @@ def configs(ctx):
         for opp in (0.0, 0.1, 0.5):
             for perm in (True, False):
                 out.append(dict(proposal=prop, opp=opp, perm=perm, alpha=1.0, data_seed=r.randrange(1 << 30), depth=depth, samples=1,
-                                grid=4, style="gauss", outlier_prob=0.05, swarm_runs=3, swarm_N=4, deep_paths=3 if quick else 12, deep_len=7 if quick else 8))
+                                grid=4, style="gauss", outlier_prob=0.05, swarm_runs=3, swarm_N=4, deep_paths=3 if quick else 12, deep_len=7 if quick else 8,
+                                wide_len=(11 if quick else 12)))
     for i in range(12 if quick else 800):
         out.append(dict(proposal=r.choice(PROPOSALS), opp=r.choice([0.0, 0.1, 0.5, round(r.uniform(0.01, 0.95), 3)]), perm=r.random() < 0.6,
                         alpha=round(math.exp(r.uniform(math.log(0.05), math.log(20))), 4), data_seed=r.randrange(1 << 30),
@@ -334,13 +338,14 @@ def run(ctx):
                        "genealogies to depth %s closed under the model's placements; one evaluation = one (parent state, next data point) pair "
                        "whose proposal was checked for normalisation, faithful sampling (complete outcome tree of sample()), completeness and "
                        "weights; plus seeded deep genealogies of 6-8 placements biased towards many top-level clones and outliers (parents with up to 6 "
-                       "top-level clones) with the same checks at every step; distinct_nontrivial = distinct (canonical non-empty parent, next "
+                       "top-level clones) and genealogies of 11 placements that keep opening top-level clones (parents with 9-10 top-level clones, 500-1000 new-clone placements) with the same checks at every step; distinct_nontrivial = distinct (canonical non-empty parent, next "
                        "data point) pairs per configuration, summed" % (
                            "4" if ctx.tier == "quick" else "5"))
     ctx.cov["configurations"] = len(cfgs)
     ctx.cov["parent_states"] = tot["parents"]
     ctx.cov["max_top_level_clones_in_a_parent"] = max_roots
     ctx.probe("parent_with_four_or_more_top_level_clones", int(max_roots >= 4))
+    ctx.probe("parent_with_nine_or_more_top_level_clones", int(max_roots >= 9))
     ctx.cov["complete_genealogies_weight_checked"] = tot["genealogies"]
     ctx.cov["leaves_visited"] = tot["leaves"]
     ctx.cov["swarm_particles_checked"] = tot["swarm_particles"]
